@@ -36,7 +36,9 @@ PREAMBLES = ['', '\\renewcommand{\\le}{\\leqslant}\\renewcommand{\\ge}{\\geqslan
 FRAMES = [('\\begin{align}', '\\end{align}'), ('\\begin{equation}', '\\end{equation}'), ('\\[', '\\]'), ('$$', '$$'),
           ('\\begin{eqnarray*}', '\\end{eqnarray*}'), ('\\begin{alignat}{2}', '\\end{alignat}'), ('\\begin{equation*}', '\\end{equation*}'),
           ('\\begin{align*}', '\\end{align*}'), ('\\begin{gather}', '\\end{gather}'), ('\\begin{displaymath}', '\\end{displaymath}'),
-          ('\\begin{eqnarray}', '\\end{eqnarray}')]
+          ('\\begin{eqnarray}', '\\end{eqnarray}'), ('\\begin{flalign}', '\\end{flalign}'), ('\\begin{flalign*}', '\\end{flalign*}'),
+          ('\\begin{gather*}', '\\end{gather*}'), ('\\begin{multiline}', '\\end{multiline}'), ('\\begin{multiline*}', '\\end{multiline*}'),
+          ('\\begin{alignat*}{2}', '\\end{alignat*}')]
 ROWSEP = [' \\\\ ', ' \\\\[2ex] ']
 
 
